@@ -215,9 +215,59 @@ def sha(a):
     return hashlib.sha256(a.tobytes()).hexdigest()[:16]
 
 
+class ClientFault(Exception):
+    """The client's own exception, raised by a callable the client handed to the library (UpdateFaulted)."""
+
+
+class FaultNotReached(Exception):
+    """The planned fault point was never evaluated (harness bookkeeping, never a verdict)."""
+
+
+def faulty_callables(fc, getL, getx, regime, t0, dt):
+    """Wrap the client's callables so that ONE of them raises ClientFault at the point named by the fault code:
+    "first"      - the velocity gradient, at its very first evaluation
+    "vgrad_mid"  - the velocity gradient, at the first evaluation past the middle of the interval that comes after
+                   its first three evaluations (update_orientations looks at start / end / midpoint values before
+                   it integrates; those do not count, so the fault lands inside the integration)
+    "vgrad_late" - the same past 95 % of the interval
+    "pos_mid"    - the position callable, past the middle (after its first six evaluations)
+    "regime_mid" - a regime callable that returns the mineral's current regime until it raises past the middle
+    Returns (getL, getx, get_regime, fired) - fired() tells whether the fault was raised."""
+    state = dict(nL=0, nx=0, fired=False)
+
+    def fire():
+        state["fired"] = True
+        raise ClientFault(f"client callable failed ({fc})")
+
+    def L(t, x):
+        state["nL"] += 1
+        if fc == "first":
+            fire()
+        if fc == "vgrad_mid" and state["nL"] > 3 and t > t0 + 0.5 * dt:
+            fire()
+        if fc == "vgrad_late" and state["nL"] > 3 and t > t0 + 0.95 * dt:
+            fire()
+        return getL(t, x)
+
+    def X(t):
+        state["nx"] += 1
+        if fc == "pos_mid" and state["nx"] > 6 and t > t0 + 0.5 * dt:
+            fire()
+        return getx(t)
+
+    def R(t, x):
+        if t > t0 + 0.5 * dt:
+            fire()
+        return regime
+
+    return L, X, (R if fc == "regime_mid" else None), (lambda: state["fired"])
+
+
 def exc_class(e):
     if e is None:
         return "None"
+    if isinstance(e, ClientFault):
+        return "ClientFault"
     if isinstance(e, ValueError):
         return "ValueError"
     if isinstance(e, RuntimeError):
@@ -400,6 +450,35 @@ class World:
     _UpdateRejected = _UpdateOk
     _UpdatePhaseAbsent = _UpdateOk
 
+    def _UpdateFaulted(self, act):
+        name = act["m"]
+        m = self.minerals[name]
+        t0, dt = self.t[name], self.dt
+        getL, getx = flow_callables(act["fl"], self.rate)
+        L, X, R, fired = faulty_callables(act["fc"], getL, getx, m.regime, t0, dt)
+        self.F_before_fault = self.Fexp[name].copy()
+        Fin = self.Fexp[name].copy()
+        try:
+            m.update_orientations(self.params(act["par"]), Fin, L, (t0, t0 + dt, X), get_regime=R, **dict(self.solver_kw))
+        finally:
+            self.fault_F_untouched = bool(np.array_equal(Fin, self.F_before_fault))
+        if not fired():
+            raise FaultNotReached(act["fc"])
+
+    def _UpdateAllFaulted(self, act):
+        ms = act["ms"]
+        t0, dt = self.t[ms[0]], self.dt
+        getL, getx = flow_callables(act["fl"], self.rate)
+        L, X, R, fired = faulty_callables(act["fc"], getL, getx, self.minerals[ms[0]].regime, t0, dt)
+        Fin = self.Fexp[ms[0]].copy()
+        keep = Fin.copy()
+        try:
+            self.pydrex.update_all([self.minerals[x] for x in ms], self.params(act["par"]), Fin, L, (t0, t0 + dt, X), get_regime=R, **dict(self.solver_kw))
+        finally:
+            self.fault_F_untouched = bool(np.array_equal(Fin, keep))
+        if not fired():
+            raise FaultNotReached(act["fc"])
+
     def _UpdateAllOk(self, act):
         pd = self.pydrex
         ms = act["ms"]
@@ -543,6 +622,8 @@ class World:
     # -- trace events (code -> spec)
     EVKIND = {"UpdateOk": "Update", "UpdateRejected": "Update", "UpdatePhaseAbsent": "Update", "VoigtOk": "Voigt", "VoigtRejected": "Voigt",
               "UpdateAllOk": "UpdateAll", "UpdateAllPartial": "UpdateAll"}
+    # UpdateFaulted / UpdateAllFaulted keep their own event names: the trace specification binds them to the
+    # fault actions (the client knows that its own callable raised)
 
     def observe(self, name, grew, dstrain):
         m = self.minerals[name]
@@ -573,7 +654,7 @@ class World:
     def event(self, tid, act, err, lens_before):
         a = act["a"]
         ev = dict(tid=tid, ev=self.EVKIND.get(a, a), exc=err)
-        for k in ("m", "ms", "fl", "par", "cb", "f", "pf", "k", "which"):
+        for k in ("m", "ms", "fl", "par", "cb", "f", "pf", "k", "which", "fc"):
             if k in act:
                 ev[k] = act[k]
         names = [act["m"]] if "m" in act else list(act.get("ms", []))
@@ -762,6 +843,18 @@ def replay_behaviour(beh, scratch_dir, comparator, tid, events, n_override=None,
         err = w.do(act)
         impl = w.project()
         n_before = len(comparator.mismatches)
+        if act["a"] in ("UpdateFaulted", "UpdateAllFaulted"):
+            if err == "other:FaultNotReached":
+                # the integration ended without evaluating the planned fault point: no verdict on this call, and the
+                # rest of the behaviour no longer matches the model's state
+                comparator.notes["fault-not-reached"] = comparator.notes.get("fault-not-reached", 0) + 1
+                break
+            if err == "None":
+                comparator.bad("C07", "client-fault-swallowed", step=step, act=act)
+                events.append(w.event(tid, act, err, lens_before))
+                break
+            comparator.notes["faults-" + act["fc"]] = comparator.notes.get("faults-" + act["fc"], 0) + 1
+            st = dict(st, err=err)     # whatever exception class comes out: only failure atomicity is demanded
         if act["a"] in ("UpdatePhaseAbsent",) or (act["a"] == "UpdateAllPartial" and st["err"] == "RuntimeError"):
             # named deviation, not promised by any property: only failure atomicity is demanded
             if err == "None":
@@ -833,7 +926,7 @@ def validate_trace(events, scratch_dir, timeout=900):
 
 # ---------------------------------------------------------------- shared driver for Layer-B checks
 TRACE_CLAUSES = {
-    "C07": ("update-accepted-where-spec", "update-raised", "failed-update-touched-history", "wrong-error-class", "null-forcing-changed-content", "bad-arguments-not-refused", "bad-arguments-touched-history"),
+    "C07": ("update-accepted-where-spec", "update-raised", "failed-update-touched-history", "wrong-error-class", "null-forcing-changed-content", "bad-arguments-not-refused", "bad-arguments-touched-history", "client-fault-swallowed", "client-fault-changed-the-mineral"),
     "C01": ("history-rewritten", "not-one-snapshot-per-update", "snapshot-shape", "snapshot-not-finite", "negative-volume", "volumes-do-not-sum-to-1", "orientation-entry-outside-unit-interval", "orientation-left-handed", "orthonormality-beyond-budget", "copies-of-one-grain-diverged"),
     "C17": ("loaded-state-differs-from-archive", "archive-differs-after-save", "corrupt-save-not-refused", "corrupt-save-wrote", "no-spec-action-LoadBadName"),
     "C08": ("update-all-post-state-differs",),
